@@ -224,6 +224,7 @@ func (e *Exclusive) call(c exclusiveConfig) <-chan *ExclusiveOutcome {
 	}
 
 	go func() {
+		verifPoint(verifExclRunnerStart)
 		// wait until not running, which has two cases
 		// 1) newly initialised item or item initialised while running
 		// 2) item has been completed (by another waiter in the same batch)
@@ -299,6 +300,7 @@ func (e *Exclusive) call(c exclusiveConfig) <-chan *ExclusiveOutcome {
 			)
 			item.work(resolve)
 			resolve(nil, errResolveNotCalled)
+			verifPoint(verifExclAfterWork)
 		}
 
 		// note this is the same mutex
